@@ -27,7 +27,19 @@ remove_demo() { for p in ${DEMO:-}; do dst=${p#*:}; rm -f "$W/$dst"; done; }
   echo "== build"
   (cd "$W" && go build ./... ) && echo BUILD-OK || echo BUILD-FAILED
   echo "== existing tests with the change: $PKGS"
-  (cd "$W" && go test -vet=off -count=1 -timeout 25m $PKGS > /tmp/sv/$NAME.suite 2>&1; echo "suite-exit=$?"; grep -v "no test files" /tmp/sv/$NAME.suite | tail -n 25)
+  (cd "$W" && go test -vet=off -count=1 -timeout 25m $PKGS > /tmp/sv/$NAME.suite 2>&1; rc=$?
+   if [ $rc != 0 ]; then
+     # timing-sensitive tests (p2p integration) can fail on a loaded machine: re-run only the failing packages, up to twice
+     FAILED=$(grep -E "^FAIL[[:space:]]+github.com" /tmp/sv/$NAME.suite | awk '{print $2}' | sed "s|github.com/MixinNetwork/mixin|.|")
+     for try in 1 2; do
+       [ -z "$FAILED" ] && break
+       echo "retry $try of failing packages: $FAILED"
+       go test -vet=off -count=1 -timeout 25m $FAILED > /tmp/sv/$NAME.retry 2>&1; rc=$?
+       [ $rc = 0 ] && break
+       FAILED=$(grep -E "^FAIL[[:space:]]+github.com" /tmp/sv/$NAME.retry | awk '{print $2}' | sed "s|github.com/MixinNetwork/mixin|.|")
+     done
+   fi
+   echo "suite-exit=$rc"; grep -v "no test files" /tmp/sv/$NAME.suite | tail -n 25)
   if [ -n "${DEMOCMD:-}" ]; then
     echo "== demo with the change (must fail)"
     place_demo
